@@ -9,7 +9,8 @@ os.makedirs(dst, exist_ok=True)
 shutil.copy(os.path.join(src, "patch.diff"), dst)
 if os.path.isdir(os.path.join(dst, "demo")):
     shutil.rmtree(os.path.join(dst, "demo"))
-shutil.copytree(os.path.join(src, "demo"), os.path.join(dst, "demo"))
+shutil.copytree(os.path.join(src, "demo"), os.path.join(dst, "demo"),
+                ignore=shutil.ignore_patterns("target", "build.log", "Cargo.lock"))
 shutil.copy(os.path.join(src, "meta.md"), dst)
 log = "/scratch/wt/%s/confirm.log" % sid
 if os.path.exists(log):
